@@ -6,6 +6,7 @@ use texlang::*;
 /// Get the `\mathchardef` command.
 pub fn get_mathchardef<S: TexlangState>() -> command::BuiltIn<S> {
     command::BuiltIn::new_execution(mathchardef_primitive_fn)
+        .with_tag(crate::registers::countdef_tag())
 }
 
 fn mathchardef_primitive_fn<S: TexlangState>(
